@@ -777,6 +777,15 @@ func runLockRMW(c *core.Ctx) {
 		c.Unresolved("types.AnnotReferrerSubject", "annotation constant not found")
 		return
 	}
+	rmwAll, rmwN := ^uint64(0), 0
+	var rmwFirst *ssa.Function
+	defer func() {
+		// the updates exclude each other only under one and the same mutex: an add under one mutex and a delete under
+		// another both ‘hold a mutex across’ and still interleave
+		if rmwN >= 2 {
+			c.Check(rmwAll != 0, "rmw-one-mutex", rmwFirst.Pos(), "the %d functions that read, modify and re-insert a subject's referrers response share a mutex held across the update: %v — under different mutexes a push and a delete of referrers of one subject interleave and one of the two updates is lost", rmwN, rmwAll != 0)
+		}
+	}()
 	for _, fn := range c.P.Funcs("") {
 		var gets, inserts []ssa.CallInstruction
 		lookup := false
@@ -874,6 +883,11 @@ func runLockRMW(c *core.Ctx) {
 			})
 		}
 		if ok {
+			rmwAll &= common
+			rmwN++
+			if rmwFirst == nil {
+				rmwFirst = fn
+			}
 			c.Pass("rmw:"+kn(name), fn.Pos(), "index read, referrers response lookup and re-insert all run under %v", e.HeldNames(common))
 		} else {
 			c.Fail("rmw:"+kn(name), fn.Pos(), "%s reads the index (IndexGet), looks up the referrers response of a subject and re-inserts a modified response (IndexInsert) without one mutex held across: two concurrent pushes of referrers to the same subject lose one of them", name)
